@@ -87,3 +87,5 @@ def run(rep, tier):
         rep.call(copy_only, rep, prog, "C11.copy")
         rep.call(c07.nearest_no_alpha, rep, prog, "C11.no-alpha")
         rep.call(formulas.nearest_formula, rep, prog, "C11.formula")
+        from . import c09
+        rep.call(c09.state_fields, rep, prog, "C11.stateless")
